@@ -116,11 +116,18 @@ func veanCheck(code string) (fails []hlib.Failure) {
 	if cs := bc.CheckSum(); cs != int(full[len(full)-1]-'0') {
 		fail("checksum", fmt.Sprintf("CheckSum()=%d, the check digit is %c", cs, full[len(full)-1]))
 	}
+	// C14: the value is unchanged by scaling
+	if sc, serr := barcode.Scale(bc, 2*bd.Dx()+1, 5); serr != nil {
+		fail("checksum-scaled", "Scale failed: "+serr.Error())
+	} else if scs, ok := sc.(barcode.BarcodeIntCS); !ok || scs.CheckSum() != bc.CheckSum() {
+		fail("checksum-scaled", "the scaled barcode reports a different CheckSum() or none")
+	}
 	return
 }
 
-func TestVerifC06(t *testing.T) {
-	r := hlib.New("C06")
+func veanMain(t *testing.T, id string, only ...string) {
+	r := hlib.New(id)
+	r.Only = only
 	defer r.Done(t)
 	rng := rand.New(rand.NewSource(r.Seed))
 	thorough := r.Tier == "thorough"
@@ -193,4 +200,14 @@ func TestVerifC06(t *testing.T) {
 		}
 		flush()
 	}
+}
+
+func TestVerifC06(t *testing.T) { veanMain(t, "C06") }
+
+// The same cases reported under the other properties they serve (only the named checks count).
+func TestVerifC10EAN(t *testing.T) {
+	veanMain(t, "C10", "panic", "result-shape", "rejects-representable", "accepts-unrepresentable")
+}
+func TestVerifC14EAN(t *testing.T) {
+	veanMain(t, "C14", "checksum", "checksum-scaled")
 }
